@@ -624,6 +624,17 @@ func (e *Env) call(x ECall) Val {
 		case VInt: // map (or other reference) allocated after the old() state
 			return VBool{le(e.old.nextRef, v.T)}
 		}
+	case "dyn": // dyn(p): the dynamic type tag of the object p refers to (set when it is allocated)
+		return VInt{sel(c.heapGet(e.st, "G$dyn.type", arrSort(sInt)), e.evalInt(x.Args[0]))}
+	case "tid": // tid("T"): the tag of struct type T
+		if lit, ok := x.Args[0].(EStr); ok {
+			t := c.eng.lookupType(lit.V)
+			if t == nil {
+				sfail("tid: unknown type %s", lit.V)
+			}
+			c.eng.dynTypes[typeName(t)] = true
+			return VInt{fmt.Sprint(c.eng.typeID(t))}
+		}
 	case "allocated": // the object / backing array / map exists in the current state (its reference is below the allocation counter)
 		switch v := e.eval(x.Args[0]).(type) {
 		case VSlice:
